@@ -124,6 +124,22 @@ class Adapter:
             except Exception as e:
                 if case['kind'] in ('lib', 'sink'):
                     div('from_mal_spec_raises', {'error': repr(e)[:300]})
+            # the command-line entry point is one more way in: `python -m maltoolbox compile <file> <out>` writes the same
+            # specification (a fresh process per case: only for the library / kitchen-sink languages, two layouts)
+            if case['kind'] in ('lib', 'sink') and case['layout'] in ('single', 'subdir'):
+                import subprocess
+                import sys
+                outp = os.path.join(root, 'cli-out.json')
+                env = dict(os.environ, PYTHONPATH=os.environ.get('VERIF_REPO', '/repo') + os.pathsep + os.environ.get('PYTHONPATH', ''))
+                p = subprocess.run([sys.executable, '-m', 'maltoolbox', 'compile', main, outp], cwd=root, env=env,
+                                   stdout=subprocess.PIPE, stderr=subprocess.STDOUT, text=True, timeout=100)
+                res['steps'] += 1
+                if p.returncode != 0 or not os.path.exists(outp):
+                    div('cli_compile_fails', {'rc': p.returncode, 'output': p.stdout[-300:]})
+                else:
+                    d2 = first_diff(want, canon_spec(json.load(open(outp, encoding='utf-8'))))
+                    if d2:
+                        div('cli_compile_differs', {'at': d2[0], 'want': json.dumps(d2[1])[:200], 'got': json.dumps(d2[2], default=str)[:200]})
         finally:
             shutil.rmtree(root, ignore_errors=True)
         res['nontrivial'] = '%s/%s/%s' % (case['kind'], L['id'], case['layout'])
